@@ -582,9 +582,21 @@ class _ProcComm:
         return self._coll("barrier", None, 0)
 
 
-def op_rank_run(st, recipe, rank):
-    """run find_distributed_partition + verify + number_distributed_tags as
-    rank *rank* of the recipe, in THIS interpreter (own hash seed and heap)"""
+def op_rank_run(st, recipe, rank, faults=(), stop_after="tags"):
+    """run find_distributed_partition + verify (+ number_distributed_tags) as
+    rank *rank* of the recipe, in THIS interpreter (own hash seed and heap).
+    An exception of the code under test is part of the result."""
+    try:
+        return _rank_run(st, recipe, rank, faults, stop_after)
+    except Exception as e:  # noqa: BLE001
+        import traceback
+        return {"raised": {"type": type(e).__name__,
+                           "mro": [c.__name__ for c in type(e).__mro__],
+                           "msg": str(e)[:300],
+                           "tb": traceback.format_exc()[-1500:]}}
+
+
+def _rank_run(st, recipe, rank, faults, stop_after):
     import sys
     import types
     import pytato as pt
@@ -595,10 +607,12 @@ def op_rank_run(st, recipe, rank):
     mpi4py.MPI = mpi
     sys.modules["mpi4py"] = mpi4py
     sys.modules["mpi4py.MPI"] = mpi
-    dag = mrecipe.build_rank(recipe, rank)
+    dag = mrecipe.build_rank(recipe, rank, faults=faults)
     comm = _ProcComm(rank, recipe["nranks"])
     part = pt.find_distributed_partition(comm, dag)
     pt.verify_distributed_partition(comm, part)
+    if stop_after == "verify":
+        return {"returned": True, "collectives": comm.ncoll}
     npart, next_tag = pt.number_distributed_tags(comm, part, base_tag=4242)
     local = partcheck.check_local(rank, dag, part)
     from . import c17rec
